@@ -30,6 +30,8 @@ func runC08(c *eng.Ctx) {
 	ruleKeylessMessagesAreNotTracked(c)
 	ruleKeyScanCoversEverySegment(c)
 	ruleNegativeSettingsTakeTheDefault(c)
+	c.Rule("R08.9", "K3")
+	ruleCompactedSegmentsArePublishedAsTheyAreReplaced(c)
 	p := c.P
 	// ---- R08.1 retention predicate
 	c.Rule("R08.1", "K1")
